@@ -138,7 +138,7 @@ def run(chk, replay=None):
                 if i and k % 4 in (1, 2):
                     # the INQUIRY of a re-attach fails (UNIT ATTENTION / BUSY, on either transport): nothing is
                     # selected, then the retry works
-                    attach(facade, d, devs, tr, False, fault=(2, 8)[(k // 4) % 2])
+                    attach(facade, d, devs, tr, False, fault=(2, 8, 0xFF, 0x22)[(k // 4) % 4])
                 attach(facade, d, devs, tr, i == 0)
             # and back to the first one
             attach(facade, devs[0], devs, tr, False)
